@@ -170,7 +170,8 @@ def compare_exact(qk, q1, k, bad, tag, stats, rtol=1e-8):
     if 'r_singularity_vs_varphi' in fk and 'r_singularity_vs_varphi' in f1 and f1['r_singularity_vs_varphi'].shape == (k * nk,):
         a, b = np.tile(fk['r_singularity_vs_varphi'], k), f1['r_singularity_vs_varphi']
         with np.errstate(all='ignore'):
-            flips = int(np.sum(~((a == b) | (np.abs(a - b) <= rtol * np.maximum(np.abs(a), np.abs(b))))))
+            badpts = np.where(~((a == b) | (np.abs(a - b) <= rtol * np.maximum(np.abs(a), np.abs(b)))))[0]
+            flips = len(set(int(j_) % nk for j_ in badpts))          # distinct PHYSICAL positions: each of the k copies of a tie can resolve either way
         if 0 < flips <= 2:
             stats['rsing_branch_flips'] = stats.get('rsing_branch_flips', 0) + 1
     for name, a in fk.items():
